@@ -115,3 +115,20 @@ package sqlgen
 //@   call DB.checkColumnValuesAgainstLimits ghost nchecked = ite(ret0 == nil, nchecked+1, nchecked)
 //@   call DB.execWithTrace assert nchecked == len(slice)
 //@   loop 3 invariant 0 <= i && i <= len(slice) && nchecked == i
+
+// ---- C13 (tester kernel): the comparison the row tester ends in is reflexive on every non-slice driver.Value and
+// never equates different non-slice values. The assume clauses are facts about package reflect (trusted): the Kind
+// of the dynamic value of an interface is determined by its type.
+//@ func driverValuesEqual
+// database/sql/driver.Value is documented to be nil, int64, float64, bool, []byte, string or time.Time
+//@   assume dv1 == nil || (dv1 is int64) || (dv1 is float64) || (dv1 is bool) || (dv1 is string) || (dv1 is time.Time) || (dv1 is []byte)
+//@   assume (dv1 is int64) ==> reflectKind(reflectValueOf(dv1)) == 6
+//@   assume (dv1 is float64) ==> reflectKind(reflectValueOf(dv1)) == 14
+//@   assume (dv1 is bool) ==> reflectKind(reflectValueOf(dv1)) == 1
+//@   assume (dv1 is string) ==> reflectKind(reflectValueOf(dv1)) == 24
+//@   assume (dv1 is time.Time) ==> reflectKind(reflectValueOf(dv1)) == 25
+//@   assume dv1 == nil ==> reflectKind(reflectValueOf(dv1)) == 0
+//@   assume (dv2 is []byte) ==> reflectKind(reflectValueOf(dv2)) == 23
+//@   assume (dv1 is []byte) ==> reflectKind(reflectValueOf(dv1)) == 23
+//@   ensures (dv1 == nil || (dv1 is int64) || (dv1 is float64) || (dv1 is bool) || (dv1 is string) || (dv1 is time.Time)) && dv1 == dv2 ==> result
+//@   ensures (dv1 == nil || (dv1 is int64) || (dv1 is float64) || (dv1 is bool) || (dv1 is string) || (dv1 is time.Time)) && result ==> dv1 == dv2
